@@ -10,6 +10,7 @@ import (
 	"sync/atomic"
 
 	"golang.org/x/mod/sumdb"
+	"golang.org/x/mod/sumdb/tlog"
 
 	"verif/harness/ref/refmerkle"
 )
@@ -440,11 +441,12 @@ func Activate(w *World) {
 				cur.log(-1, "Yield", point, "")
 			}
 		}
-		sumdb.VerifInstall = func(c *sumdb.Client, oldN, newN int64) {
+		sumdb.VerifInstall = func(c *sumdb.Client, oldT, newT tlog.Tree) {
 			cur := active.Load()
 			if cur == nil {
 				return
 			}
+			oldN, newN := oldT.N, newT.N
 			cur.mu.Lock()
 			id, ok := cur.clients[c]
 			if !ok {
@@ -456,6 +458,22 @@ func Activate(w *World) {
 			cur.mu.Unlock()
 			if newN <= oldN {
 				cur.viol("in-memory-head-regressed", map[string]any{"client": id, "old_n": oldN, "new_n": newN})
+			}
+			// the in-memory head follows one timeline: old and new must be heads of one common branch
+			if !cur.SkipAuth && len(cur.Logs) > 0 {
+				share, known := false, true
+				for _, l := range cur.Logs {
+					onOld := oldN <= int64(len(l.Mods)) && (oldN == 0 || l.M.Root(int(oldN)) == [32]byte(oldT.Hash))
+					onNew := newN <= int64(len(l.Mods)) && l.M.Root(int(newN)) == [32]byte(newT.Hash)
+					if onOld && onNew {
+						share = true
+					}
+				}
+				_ = known
+				if !share {
+					cur.viol("in-memory-head-moved-off-its-timeline", map[string]any{"client": id, "old_n": oldN, "new_n": newN,
+						"old_hash": fmt.Sprintf("%x", oldT.Hash[:6]), "new_hash": fmt.Sprintf("%x", newT.Hash[:6])})
+				}
 			}
 			// no Gate here: the caller holds the client's latestMu
 		}
